@@ -24,6 +24,7 @@ structure Cfg where
   d0 : Rat                -- level-0 cell size along the normal
   levels : List (List CBox)
   pos : Rat
+  fixed : Bool := false     -- model of the repaired code (half-cell dilation, grid level at faces)
 
 def dx (c : Cfg) (l : Nat) : Rat := c.d0 / pow2 l
 
@@ -32,7 +33,9 @@ def boxHi (c : Cfg) (l : Nat) (b : CBox) : Rat := c.g + (b.a + b.vals.length) * 
 def centre (c : Cfg) (l : Nat) (b : CBox) (i : Nat) : Rat := boxLo c l b + ((i : Rat) + 1/2) * dx c l
 
 /-- compute_mpinput_3d -/
-def selected (c : Cfg) (l : Nat) (b : CBox) : Bool := boxLo c l b ≤ c.pos && c.pos ≤ boxHi c l b
+def selected (c : Cfg) (l : Nat) (b : CBox) : Bool :=
+  let h : Rat := if c.fixed then dx c l / 2 else 0
+  boxLo c l b - h ≤ c.pos && c.pos ≤ boxHi c l b + h
 
 def findIdx? (p : Nat → Bool) (n : Nat) : Option Nat := (List.range n).find? p
 def findLastIdx? (p : Nat → Bool) (n : Nat) : Option Nat := ((List.range n).reverse).find? p
@@ -67,12 +70,12 @@ def absorb (c : Cfg) (l : Nat) (s : St) (o : Option Sample × Option Sample) : S
     | none => s
     | some x =>
       let s := { s with left := some x, gl := some l }
-      if close x.n last then { s with right := some x } else s
+      if close x.n last then (if c.fixed then { s with right := some x, gr := some l } else { s with right := some x }) else s
   match o.2 with
     | none => s
     | some x =>
       let s := { s with right := some x, gr := some l }
-      if close x.n first then { s with left := some x } else s
+      if close x.n first then (if c.fixed then { s with left := some x, gl := some l } else { s with left := some x }) else s
 
 def reduce (c : Cfg) : St :=
   let rec go (l : Nat) (lvls : List (List CBox)) (s : St) : St :=
